@@ -34,13 +34,25 @@
 //     the error text); validatePositive(name, v) is the intrinsic `v <= 0`
 //     (signed integers, durations) resp. `v == 0` (unsigned) — its own body
 //     uses reflection and is tied by syntactic facts and the differential run;
+//   - a struct type of the repository (and timeutil.Duration) becomes a Lean
+//     structure; every other struct type (time.Time, sync.Mutex, netip.Addr,
+//     dns.Msg, caches, …) is abstract: parameters of such types are dropped and
+//     an expression that reads from them (`req.Question[0].Qtype`) becomes an
+//     extra parameter `e<k>_<name>` holding its value;
+//   - []error literals, append on them and errors.Join are lists of optional
+//     texts and "first non-nil" (errors.Join is non-nil iff an element is);
 //   - any other call is *opaque*: its result becomes an extra parameter of the
-//     Lean definition (named after the callee, in order of appearance) and,
-//     when "trace" is set, the definition also returns the list of opaque
-//     calls reached, in order, so that "which external effects happen, and in
-//     which order" is part of the translated meaning;
+//     Lean definition (`o<k>_<callee>`, one per call site, in order of
+//     appearance) and, when "trace" is set, the definition also returns the
+//     list of opaque calls reached, in order, each with the values of its
+//     arguments of scalar type — so "which external effects happen, in which
+//     order and with which arguments" is part of the translated meaning; calls
+//     listed under "pure" are opaque values that are not traced; a call to a
+//     translated function that itself has opaque parameters is opaque too;
 //   - calls listed under "ignore" (mutex operations, logging, metrics) are
-//     dropped.
+//     dropped; methods listed under "identity" return their receiver;
+//   - "recv_nonnil" models a pointer receiver as the struct itself (the
+//     assumption that callers never pass nil is stated where it is used).
 //
 // Anything else is a translation error: the generated definition is replaced
 // by a marker that makes the Tie theorem fail, i.e. a broken obligation.
@@ -82,6 +94,9 @@ type TrFunc struct {
 	// RecvNonNil models the pointer receiver as the struct itself: callers
 	// are assumed never to pass nil (stated where it is used).
 	RecvNonNil bool `json:"recv_nonnil,omitempty"`
+	// Identity lists method names whose call returns the receiver's value
+	// unchanged (datasize.ByteSize.Bytes: `return uint64(b)`).
+	Identity []string `json:"identity,omitempty"`
 	// Pure lists printed callee expressions whose calls are opaque *values*
 	// that are not recorded in the trace (getters such as t.UnixNano).
 	Pure []string `json:"pure,omitempty"`
@@ -210,6 +225,7 @@ type funcOut struct {
 	body    string
 	err     string
 	doc     string
+	opaque  []string
 	done    bool
 	busy    bool
 }
@@ -248,6 +264,11 @@ func (t *translator) leanType(ty types.Type) string {
 			}
 		}
 		return ""
+	case *types.Slice:
+		if isError(u.Elem()) {
+			return "(List (Option String))"
+		}
+		return ""
 	case *types.Interface:
 		if u.NumMethods() == 1 && u.Method(0).Name() == "Error" {
 			return "(Option String)"
@@ -258,7 +279,7 @@ func (t *translator) leanType(ty types.Type) string {
 		for i := 0; i < u.Len(); i++ {
 			p := t.leanType(u.At(i).Type())
 			if p == "" {
-				return ""
+				p = "Unit"
 			}
 			parts = append(parts, p)
 		}
@@ -275,7 +296,21 @@ func sanitize(s string) string {
 	return r.Replace(s)
 }
 
+// structPkgAllowed: struct types of the repository itself and the few library
+// value types the configuration uses are translated; every other struct
+// (time.Time, sync.Mutex, netip.Addr, dns.Msg, …) is abstract.
+func structPkgAllowed(n *types.Named) bool {
+	if n.Obj().Pkg() == nil {
+		return false
+	}
+	p := n.Obj().Pkg().Path()
+	return strings.HasPrefix(p, repoModule) || p == "github.com/AdguardTeam/golibs/timeutil"
+}
+
 func (t *translator) structType(n *types.Named, st *types.Struct) string {
+	if !structPkgAllowed(n) {
+		return ""
+	}
 	pk := ""
 	if n.Obj().Pkg() != nil {
 		pk = n.Obj().Pkg().Name() + "_"
@@ -326,23 +361,25 @@ func leanIdent(s string) string {
 // Per-function translation.
 
 type fctx struct {
-	t        *translator
-	p        *loadedPkg
-	spec     TrFunc
-	fd       *ast.FuncDecl
-	recv     string // receiver variable name ("" if none)
-	recvVal  bool   // pointer receiver modelled as the struct itself (recv_nonnil)
-	recvMut  bool   // receiver is a pointer whose fields are assigned
-	results  []*types.Var
-	named    bool
-	opaque   []string // extra parameters "name : Type"
-	nOpaque  int
-	fresh    int
-	partial  bool
-	ptrVars  map[string]bool // variables of pointer-to-struct type (Option S)
-	derefd   map[string]string
-	trace    bool
-	localFns map[string]*ast.FuncLit
+	t           *translator
+	p           *loadedPkg
+	spec        TrFunc
+	fd          *ast.FuncDecl
+	recv        string // receiver variable name ("" if none)
+	recvVal     bool   // pointer receiver modelled as the struct itself (recv_nonnil)
+	recvMut     bool   // receiver is a pointer whose fields are assigned
+	results     []*types.Var
+	named       bool
+	opaque      []string // extra parameters "name : Type"
+	nOpaque     int
+	fresh       int
+	partial     bool
+	ptrVars     map[string]bool // variables of pointer-to-struct type (Option S)
+	derefd      map[string]string
+	trace       bool
+	localFns    map[string]*ast.FuncLit
+	opaqueVals  map[string]string
+	opaqueCalls map[*ast.CallExpr]string
 }
 
 type ex struct {
@@ -442,6 +479,43 @@ func isPtrStruct(t types.Type) bool {
 	return ok
 }
 
+// implementsError reports whether t is a concrete (non-interface) type with an
+// Error() string method.
+func implementsError(t types.Type) bool {
+	if isError(t) {
+		return false
+	}
+	if _, ok := t.Underlying().(*types.Interface); ok {
+		return false
+	}
+	ms := types.NewMethodSet(t)
+	for i := 0; i < ms.Len(); i++ {
+		if ms.At(i).Obj().Name() == "Error" {
+			return true
+		}
+	}
+	return false
+}
+
+// exprAs translates e for a context of type to (implicit conversion of a
+// concrete error value to the error interface).
+func (c *fctx) exprAs(e ast.Expr, to types.Type) ex {
+	if to != nil && isError(to) {
+		if id, ok := e.(*ast.Ident); ok && id.Name == "nil" {
+			return ex{code: "none"}
+		}
+		from := c.typeOf(e)
+		if implementsError(from) {
+			if isString(from) {
+				x := c.expr(e)
+				return c.bindN([]ex{x}, func(s []string) string { return "(some " + s[0] + ")" })
+			}
+			return ex{code: fmt.Sprintf("(some %q)", c.show(e))}
+		}
+	}
+	return c.expr(e)
+}
+
 // bind2 combines sub-expressions: f receives pure codes.
 func (c *fctx) bindN(xs []ex, f func(codes []string) string) ex {
 	codes := make([]string, len(xs))
@@ -520,9 +594,41 @@ func (c *fctx) expr(e ast.Expr) ex {
 		return c.call(x)
 	case *ast.BasicLit:
 		fail("literal %s without constant value", x.Value)
+	case *ast.CompositeLit:
+		if sl, ok := c.typeOf(x).Underlying().(*types.Slice); ok && isError(sl.Elem()) {
+			var xs []ex
+			for _, el := range x.Elts {
+				xs = append(xs, c.exprAs(el, sl.Elem()))
+			}
+			return c.bindN(xs, func(s []string) string { return "[" + strings.Join(s, ", ") + "]" })
+		}
+	}
+	if _, ok := e.(*ast.IndexExpr); ok {
+		return c.opaqueValue(e)
 	}
 	fail("expression %s (%T)", c.show(e), e)
 	return ex{}
+}
+
+// opaqueValue turns an expression the subset cannot express (an element of a
+// slice, a field of a library struct) into an extra parameter holding its value.
+func (c *fctx) opaqueValue(e ast.Expr) ex {
+	lt := c.t.leanType(c.typeOf(e))
+	if lt == "" {
+		fail("expression %s has untranslatable type %s", c.show(e), c.typeOf(e))
+	}
+	key := c.show(e)
+	if c.opaqueVals == nil {
+		c.opaqueVals = map[string]string{}
+	}
+	if n, ok := c.opaqueVals[key]; ok {
+		return ex{code: n}
+	}
+	c.nOpaque++
+	name := fmt.Sprintf("e%d_%s", c.nOpaque, sanitize(lastName(key)))
+	c.opaque = append(c.opaque, fmt.Sprintf("(%s : %s)", name, lt))
+	c.opaqueVals[key] = name
+	return ex{code: name}
 }
 
 func (c *fctx) selector(x *ast.SelectorExpr) ex {
@@ -538,6 +644,9 @@ func (c *fctx) selector(x *ast.SelectorExpr) ex {
 	sel := c.p.info.Selections[x]
 	if sel == nil || sel.Kind() != types.FieldVal {
 		fail("selector %s is not a field", c.show(x))
+	}
+	if bt := c.typeOf(x.X); c.t.leanType(bt) == "" {
+		return c.opaqueValue(x)
 	}
 	if len(sel.Index()) != 1 {
 		fail("embedded field path %s", c.show(x))
@@ -722,6 +831,16 @@ func (c *fctx) call(x *ast.CallExpr) ex {
 	if id, ok := x.Fun.(*ast.Ident); ok {
 		if _, isB := c.p.info.Uses[id].(*types.Builtin); isB {
 			switch id.Name {
+			case "append":
+				sl, ok := c.typeOf(x.Args[0]).Underlying().(*types.Slice)
+				if !ok || !isError(sl.Elem()) || x.Ellipsis.IsValid() {
+					fail("append %s", c.show(x))
+				}
+				xs := []ex{c.expr(x.Args[0])}
+				for _, a := range x.Args[1:] {
+					xs = append(xs, c.exprAs(a, sl.Elem()))
+				}
+				return c.bindN(xs, func(s []string) string { return "(" + s[0] + " ++ [" + strings.Join(s[1:], ", ") + "])" })
 			case "min", "max":
 				var xs []ex
 				for _, a := range x.Args {
@@ -739,15 +858,32 @@ func (c *fctx) call(x *ast.CallExpr) ex {
 		}
 	}
 	key, recvExpr := c.calleeKey(x)
+	if recvExpr != nil && len(x.Args) == 0 && isInt(c.typeOf(recvExpr)) && isInt(c.typeOf(x)) {
+		for _, n := range c.spec.Identity {
+			if strings.HasSuffix(key, "."+n) {
+				return c.expr(recvExpr)
+			}
+		}
+	}
 	// intrinsics
 	switch {
 	case key == "cmp.Or":
 		var xs []ex
 		for _, a := range x.Args {
-			if !isError(c.typeOf(a)) {
+			if !isError(c.typeOf(a)) && !implementsError(c.typeOf(a)) {
 				fail("cmp.Or on non-error %s", c.show(a))
 			}
-			xs = append(xs, c.expr(a))
+			xs = append(xs, c.exprAs(a, types.Universe.Lookup("error").Type()))
+		}
+		return c.bindN(xs, func(s []string) string { return "(firstErr [" + strings.Join(s, ", ") + "])" })
+	case key == "github.com/AdguardTeam/golibs/errors.Join" || key == "errors.Join":
+		if len(x.Args) == 1 && x.Ellipsis.IsValid() {
+			a := c.expr(x.Args[0])
+			return c.bindN([]ex{a}, func(s []string) string { return "(firstErr " + s[0] + ")" })
+		}
+		var xs []ex
+		for _, a := range x.Args {
+			xs = append(xs, c.exprAs(a, types.Universe.Lookup("error").Type()))
 		}
 		return c.bindN(xs, func(s []string) string { return "(firstErr [" + strings.Join(s, ", ") + "])" })
 	case strings.HasSuffix(key, "/internal/cmd.validateProp"):
@@ -776,16 +912,13 @@ func (c *fctx) call(x *ast.CallExpr) ex {
 		})
 	}
 	// translated functions
-	if fo := c.t.lookup(key); fo != nil {
+	if fo := c.t.lookup(key); fo != nil && len(fo.paramsOpaque()) == 0 && !fo.spec.Trace {
 		var xs []ex
 		if recvExpr != nil {
 			xs = append(xs, c.expr(recvExpr))
 		}
 		for _, a := range x.Args {
 			xs = append(xs, c.expr(a))
-		}
-		if len(fo.paramsOpaque()) > 0 {
-			fail("call of %s, which has opaque parameters", key)
 		}
 		r := c.bindN(xs, func(s []string) string { return "(" + fo.name + " " + strings.Join(s, " ") + ")" })
 		if fo.partial {
@@ -811,13 +944,60 @@ func (c *fctx) call(x *ast.CallExpr) ex {
 	if lt == "" {
 		fail("opaque call %s returns untranslatable type %s", c.show(x), c.typeOf(x))
 	}
-	c.nOpaque++
-	name := fmt.Sprintf("o%d_%s", c.nOpaque, sanitize(lastName(c.show(x.Fun))))
-	c.opaque = append(c.opaque, fmt.Sprintf("(%s : %s)", name, lt))
+	if c.opaqueCalls == nil {
+		c.opaqueCalls = map[*ast.CallExpr]string{}
+	}
+	name, seen := c.opaqueCalls[x]
+	if !seen {
+		c.nOpaque++
+		name = fmt.Sprintf("o%d_%s", c.nOpaque, sanitize(lastName(c.show(x.Fun))))
+		c.opaque = append(c.opaque, fmt.Sprintf("(%s : %s)", name, lt))
+		c.opaqueCalls[x] = name
+	}
 	if c.trace && !c.matches(c.spec.Pure, x) {
-		return ex{code: "«call:" + lastName(c.show(x.Fun)) + "»" + name}
+		return ex{code: "«call:" + c.traceEntry(x) + "»" + name}
 	}
 	return ex{code: name}
+}
+
+// traceEntry renders one element of the call trace: the callee's name and the
+// values of those arguments that are pure expressions of translatable type.
+func (c *fctx) traceEntry(x *ast.CallExpr) string {
+	var args []string
+	for _, a := range x.Args {
+		args = append(args, c.traceArg(a))
+	}
+	return fmt.Sprintf("(%q, [%s])", lastName(c.show(x.Fun)), strings.Join(args, ", "))
+}
+
+func (c *fctx) traceArg(a ast.Expr) (code string) {
+	code = "\"_\""
+	defer func() {
+		if r := recover(); r != nil {
+			if _, ok := r.(trErr); !ok {
+				panic(r)
+			}
+		}
+	}()
+	tv, ok := c.p.info.Types[a]
+	if !ok || tv.Type == nil {
+		return code
+	}
+	lt := c.t.leanType(tv.Type)
+	if lt != "Int" && lt != "Bool" && lt != "String" {
+		return code
+	}
+	// Do not let a nested opaque call allocate parameters from here.
+	savedN, savedO, savedP := c.nOpaque, len(c.opaque), c.partial
+	e := c.expr(a)
+	if e.partial || strings.Contains(e.code, "«call:") || c.nOpaque != savedN {
+		c.nOpaque, c.opaque, c.partial = savedN, c.opaque[:savedO], savedP
+		return "\"_\""
+	}
+	if lt == "String" {
+		return e.code
+	}
+	return "(toString " + e.code + ")"
 }
 
 func lastName(s string) string {
@@ -834,7 +1014,7 @@ func (c *fctx) thunk(a ast.Expr) ex {
 	case *ast.FuncLit:
 		if len(f.Body.List) == 1 {
 			if r, ok := f.Body.List[0].(*ast.ReturnStmt); ok && len(r.Results) == 1 {
-				return c.expr(r.Results[0])
+				return c.exprAs(r.Results[0], types.Universe.Lookup("error").Type())
 			}
 		}
 		fail("function literal %s", c.show(a))
@@ -846,15 +1026,7 @@ func (c *fctx) thunk(a ast.Expr) ex {
 	return ex{}
 }
 
-func (fo *funcOut) paramsOpaque() []string {
-	var r []string
-	for _, p := range fo.params {
-		if strings.HasPrefix(p, "(o") && strings.Contains(p, "_") {
-			r = append(r, p)
-		}
-	}
-	return r
-}
+func (fo *funcOut) paramsOpaque() []string { return fo.opaque }
 
 func (t *translator) lookup(key string) *funcOut {
 	sp, ok := t.byDecl[key]
@@ -893,11 +1065,7 @@ func (c *fctx) withEx(e ex, k func(code string) string) string {
 	code, calls := traceSplit(e.code)
 	pre := ""
 	if len(calls) > 0 {
-		var q []string
-		for _, s := range calls {
-			q = append(q, fmt.Sprintf("%q", s))
-		}
-		pre = "let tr := tr ++ [" + strings.Join(q, ", ") + "]\n"
+		pre = "let tr := tr ++ [" + strings.Join(calls, ", ") + "]\n"
 	}
 	if e.partial {
 		v := c.tmp("x")
@@ -969,8 +1137,8 @@ func (c *fctx) stmts(list []ast.Stmt) string {
 			})
 		}
 		var xs []ex
-		for _, r := range x.Results {
-			xs = append(xs, c.expr(r))
+		for i, r := range x.Results {
+			xs = append(xs, c.exprAs(r, c.results[i].Type()))
 		}
 		return c.withExs(xs, func(codes []string) string { return c.ret(codes) })
 	case *ast.IfStmt:
@@ -1014,7 +1182,7 @@ func (c *fctx) stmts(list []ast.Stmt) string {
 			}
 			for _, n := range vs.Names {
 				z := c.zero(c.p.info.Defs[n].Type())
-				out += fmt.Sprintf("let %s := %s\n", leanIdent(n.Name), z)
+				out += fmt.Sprintf("let %s : %s := %s\n", leanIdent(n.Name), c.t.leanType(c.p.info.Defs[n].Type()), z)
 			}
 		}
 		return out + c.stmts(rest)
@@ -1044,8 +1212,7 @@ func (c *fctx) stmts(list []ast.Stmt) string {
 		if !c.trace {
 			fail("call statement %s (not ignored, no trace)", c.show(x))
 		}
-		name := lastName(c.show(call.Fun))
-		return fmt.Sprintf("let tr := tr ++ [%q]\n", name) + c.stmts(rest)
+		return "let tr := tr ++ [" + c.traceEntry(call) + "]\n" + c.stmts(rest)
 	case *ast.DeferStmt:
 		if c.matches(c.spec.Ignore, x.Call) {
 			return c.stmts(rest)
@@ -1165,12 +1332,12 @@ func (c *fctx) assignStmt(x *ast.AssignStmt, rest []ast.Stmt) string {
 	}
 	if len(x.Lhs) == len(x.Rhs) {
 		if len(x.Lhs) == 1 {
-			return c.assign(x.Lhs[0], c.expr(x.Rhs[0]), rest, nil)
+			return c.assign(x.Lhs[0], c.exprAs(x.Rhs[0], c.lhsType(x.Lhs[0])), rest, nil)
 		}
 		// parallel assignment: evaluate all, then assign
 		var xs []ex
-		for _, r := range x.Rhs {
-			xs = append(xs, c.expr(r))
+		for i, r := range x.Rhs {
+			xs = append(xs, c.exprAs(r, c.lhsType(x.Lhs[i])))
 		}
 		return c.withExs(xs, func(codes []string) string {
 			out := ""
@@ -1208,6 +1375,25 @@ func (c *fctx) assignStmt(x *ast.AssignStmt, rest []ast.Stmt) string {
 	}
 	fail("assignment %s", c.show(x))
 	return ""
+}
+
+func (c *fctx) lhsType(l ast.Expr) types.Type {
+	if id, ok := l.(*ast.Ident); ok {
+		if id.Name == "_" {
+			return nil
+		}
+		if o := c.p.info.Defs[id]; o != nil {
+			return o.Type()
+		}
+		if o := c.p.info.Uses[id]; o != nil {
+			return o.Type()
+		}
+		return nil
+	}
+	if tv, ok := c.p.info.Types[l]; ok {
+		return tv.Type
+	}
+	return nil
 }
 
 func (c *fctx) assign(lhs ast.Expr, e ex, rest []ast.Stmt, _ ast.Expr) string {
@@ -1369,16 +1555,16 @@ func (t *translator) translate(sp TrFunc) (fo *funcOut) {
 		resTypes = append(resTypes, lt)
 	}
 	if c.trace {
-		resTypes = append(resTypes, "(List String)")
+		resTypes = append(resTypes, "(List (String × List String))")
 	}
 	pre := ""
 	if c.named {
 		for _, v := range c.results {
-			pre += fmt.Sprintf("let %s := %s\n", leanIdent(v.Name()), c.zero(v.Type()))
+			pre += fmt.Sprintf("let %s : %s := %s\n", leanIdent(v.Name()), t.leanType(v.Type()), c.zero(v.Type()))
 		}
 	}
 	if c.trace {
-		pre += "let tr : List String := []\n"
+		pre += "let tr : List (String × List String) := []\n"
 	}
 	body := pre + c.stmts(fd.Body.List)
 	rt := "Unit"
@@ -1398,6 +1584,7 @@ func (t *translator) translate(sp TrFunc) (fo *funcOut) {
 		fail("opaque call in a position where its order of evaluation is not tracked")
 	}
 	fo.params = append(params, c.opaque...)
+	fo.opaque = c.opaque
 	fo.resType = rt
 	fo.body = body
 	return fo
